@@ -27,7 +27,8 @@ ASSUMPTIONS = c09.ASSUMPTIONS + ["readers on an object used by another thread ar
                                  "the shared in-memory tree without the lock and bump the shared suspend counter): not generated",
                                  "shared-memory buffered objects on one file used concurrently are the OPEN finding C14-F2: not generated"]
 COMPONENTS = c09.COMPONENTS
-EXPECT_PROBES = {"quick": ["preempt_in_op", "reader_ops"], "thorough": ["preempt_in_op", "reader_ops"]}
+EXPECT_PROBES = {"quick": ["preempt_in_op", "reader_ops", "scan_runs", "scan_known_site_failures"],
+                 "thorough": ["preempt_in_op", "reader_ops", "scan_runs", "scan_known_site_failures"]}
 
 
 def build(seed, i, tier, avoid=True, force=None):
@@ -128,8 +129,9 @@ def run_payload(payload):
 
 
 def run_one(seed, i, tier):
+    from ..core.runner import run_isolated
     payload = build(seed, i, tier)
-    out, v = run_payload(payload)
+    out, v = run_isolated(run_payload, (payload,), timeout=RUN_TIMEOUT)
     nread = sum(1 for p in payload["progs"] for o in p if o.get("reader"))
     res = {"viol": None, "steps": out["steps"], "probes": {"preempt_in_op": out["preempt_in_op"], "lock_contended": out["contended"],
                                                              "switches": out["switches"], "reader_ops": nread},
@@ -161,3 +163,141 @@ def minimise(payload, viol):
         return c09.minimise(payload, viol)
     finally:
         c09.run_payload = saved
+
+
+# ---------------------------------------------------------------------------------------------------------------------
+# Site-differential scan of the OPEN findings (C14-F1..F3).
+# The generator above never produces the listed patterns; this scan looks INSIDE them: for a fixed set of small
+# reader/writer scenarios every single-pre-emption schedule (first thread pre-empted after k yield points, k = 0..KMAX,
+# the other thread runs to completion, the first resumes; both directions) is executed.  A failing schedule is
+# identified by (scenario, direction, library function in which the first thread was pre-empted, violation kind,
+# exception class).  The set observed on the unchanged tree is committed in findings/C14-known-sites.json (written by
+# tools/gen_c14_sites.py, never at check time); a failing schedule OUTSIDE that set is a different violation of C14 and
+# is reported.
+KMAX = 1800   # upper bound on the yield points of the first thread (measured 205..1610 on the pinned tree)
+SCENARIOS = [
+    # id, finding, family, kind, ctx cap ('none' = unbuffered), nobj, reader (obj, path, op, args), writer (obj, path, op, args)
+    ("F1-d-call-del", "C14-F1", "JSON", "dict", "none", 1, (0, [], "call", []), (0, [], "delitem", ["a"])),
+    ("F1-d-get-set", "C14-F1", "JSON", "dict", "none", 1, (0, [], "getitem", ["n"]), (0, [], "setitem", ["x", 101])),
+    ("F1-d-len-update", "C14-F1", "JSON", "dict", "none", 1, (0, [], "len", []), (0, [], "update", [{"x": 102, "a": 103}])),
+    ("F1-d-child", "C14-F1", "JSON", "dict", "none", 1, (0, ["n"], "call", []), (0, ["n"], "setitem", ["p", 104])),
+    ("F1-l-call-append", "C14-F1", "JSON", "list", "none", 1, (0, [], "call", []), (0, [], "append", [105])),
+    ("F1-l-get-insert", "C14-F1", "MemoryBufferedJSON", "list", "none", 1, (0, [], "getitem", [0]), (0, [], "insert", [0, 106])),
+    ("F1-b-call-set", "C14-F1", "BufferedJSON", "dict", None, 1, (0, [], "call", []), (0, [], "setitem", ["x", 107])),
+    ("F2-d-call-set", "C14-F2", "MemoryBufferedJSON", "dict", None, 2, (1, [], "call", []), (0, [], "setitem", ["x", 108])),
+    ("F2-d-get-clear", "C14-F2", "MemoryBufferedJSON", "dict", None, 2, (1, [], "getitem", ["n"]), (0, ["n"], "clear", [])),
+    ("F2-l-call-append", "C14-F2", "MemoryBufferedJSONAttr", "list", None, 2, (1, [], "call", []), (0, [], "append", [109])),
+    ("F2-d-call-reset", "C14-F2", "MemoryBufferedJSON", "dict", None, 2, (1, [], "call", []), (0, [], "reset", [{"r": 110}])),
+    ("F3-d-call-set", "C14-F3", "BufferedJSON", "dict", 60, 2, (1, [], "call", []), (0, [], "setitem", ["x", 111])),
+    ("F3-l-call-iadd", "C14-F3", "BufferedJSON", "list", 60, 2, (1, [], "call", []), (0, [], "iadd", [[112, 113]])),
+    ("F3-l-get-append", "C14-F3", "BufferedJSONAttr", "list", 0, 2, (1, [], "getitem", [0]), (0, [], "append", [114])),
+]
+NSCAN = len(SCENARIOS) * 2 * KMAX
+_known = {}
+
+
+def known_sites():
+    if "k" not in _known:
+        import json
+        import os
+        p = os.path.join(os.path.dirname(os.path.dirname(os.path.dirname(os.path.abspath(__file__)))), "findings", "C14-known-sites.json")
+        _known["k"] = set(tuple(x) for x in json.load(open(p))["sites"]) if os.path.exists(p) else set()
+    return _known["k"]
+
+
+def scan_payload(j):
+    sc = SCENARIOS[j // (2 * KMAX)]
+    direction = (j // KMAX) % 2
+    k = j % KMAX
+    sid, fid, fam, kind, cap, nobj, rd, wr = sc
+    fresh = Fresh()
+    cfg = {"prop": ID, "family": fam, "kind": kind, "wc": False, "threading": True, "oracles": [], "uuid_seed": 7, "opcode": False}
+    init = _thr.init_content(kind, fresh)
+    pre = [{"t": "new_res", "family": fam, "kind": kind, "init": init}]
+    for _ in range(nobj):
+        pre.append({"t": "new_obj", "rid": 0, "wc": False})
+    hids = {}
+    nxt = nobj
+    for o, path, _, _ in (rd, wr):
+        cur, hid = [], o
+        for key in path:
+            cur = cur + [key]
+            if (o, tuple(cur)) not in hids:
+                pre.append({"t": "op", "hid": hid, "name": "getitem", "args": [key], "keep": True, "hid_new": nxt})
+                hids[(o, tuple(cur))] = nxt
+                nxt += 1
+            hid = hids[(o, tuple(cur))]
+    def hid_of(o, path):
+        return o if not path else hids[(o, tuple(path))]
+    progs = [[{"h": hid_of(rd[0], rd[1]), "name": rd[2], "args": rd[3], "reader": True}],
+             [{"h": hid_of(wr[0], wr[1]), "name": wr[2], "args": wr[3], "reader": False}]]
+    first = "T0" if direction == 0 else "T1"
+    strat = {"kind": "single", "first": first, "k": k, "order": [first, "T1" if first == "T0" else "T0"]}
+    ctx = None if cap == "none" else [{"kind": "backend", "family": fam, "rkind": kind, "cap": cap}]
+    return {"cfg": cfg, "pre": pre, "progs": progs, "strat": strat, "sched_seed": f"scan/{sid}", "shape": "scan", "ctx": ctx,
+            "scenario": sid, "finding": fid, "direction": "reader-first" if direction == 0 else "writer-first", "k": k}
+
+
+def scan_element(payload, out, v):
+    site = None
+    for frm, fn in out.get("switch_funcs", []):
+        site = fn
+        break
+    exc = sorted({r["exc"] for r in out["history"] if r.get("exc")})
+    return (payload["scenario"], payload["direction"], site or "-", v["kind"], ",".join(exc))
+
+
+def scan_one(j):
+    payload = scan_payload(j)
+    out, v = run_payload(payload)
+    first = payload["strat"]["first"]
+    beyond = out.get("points", {}).get(first, 0) < payload["k"]   # k is past the end of the first thread: nothing new
+    return payload, out, v, beyond
+
+
+_npoints = {}
+
+
+def first_thread_points(j):
+    """Number of yield points the first thread of scan run j executes when it runs alone first (probed once per worker
+    and (scenario, direction) with k = KMAX-1); pre-emption indices beyond it add nothing and are skipped."""
+    key = j // KMAX
+    if key not in _npoints:
+        from ..core.runner import run_isolated
+        payload, out, v, beyond = run_isolated(scan_one, (key * KMAX + KMAX - 1,), timeout=RUN_TIMEOUT)
+        _npoints[key] = out.get("points", {}).get(payload["strat"]["first"], KMAX)
+    return _npoints[key]
+
+
+_orig_run_one = run_one
+
+
+def run_one(seed, i, tier):  # noqa: F811
+    if i >= NSCAN:
+        return _orig_run_one(seed, i - NSCAN, tier)
+    k = i % KMAX
+    skip = {"viol": None, "steps": 0, "probes": {"scan_skipped": 1}, "faults": {}, "stats": {}, "logd": "skipped", "evals": 0}
+    if tier == "quick" and (k + seed) % 2:
+        return skip            # quick tier: every second pre-emption index (which half depends on the seed)
+    if k > first_thread_points(i) + 2:
+        return skip
+    from ..core.runner import run_isolated
+    payload, out, v, beyond = run_isolated(scan_one, (i,), timeout=RUN_TIMEOUT)
+    res = {"viol": None, "steps": out["steps"], "probes": {"scan_runs": 1, "scan_beyond_end": int(beyond)}, "faults": {"preemption": out["switches"]},
+           "stats": {}, "logd": digest(jsonable([payload["scenario"], payload["direction"], payload["k"], _thr.describe_history(out), out["final"]]))}
+    if v:
+        el = scan_element(payload, out, v)
+        if el in known_sites():
+            res["probes"]["scan_known_site_failures"] = 1
+            res["sig"] = digest(list(el))
+        else:
+            v = dict(v, index=i, replay=payload, bucket=el[:3],
+                     msg=f"[inside the pattern of open finding {payload['finding']}, but NOT one of its listed failing pre-emption sites] scenario {el[0]} "
+                         f"{el[1]}, first thread pre-empted in {el[2]} after {payload['k']} points: {v['msg'][:700]}")
+            res["viol"] = v
+    return res
+
+
+ISOLATE = False   # run_one isolates internally (scan runs and random runs each fork their own child)
+RUNS = {"quick": NSCAN + 8000, "thorough": NSCAN + 300000}
+CHUNK = 200
